@@ -469,6 +469,9 @@ func c17Worker(w *W) {
 		}
 		return true
 	}
+	// a result the caller still holds: it must not change when Parse is called again (with another text, or a failing one)
+	var heldM, heldRef map[string]string
+	var heldText string
 	mapping := func(n *c17node, text string) {
 		ref := map[string]string{}
 		c17flatten(n, "", ref)
@@ -476,6 +479,22 @@ func c17Worker(w *W) {
 		c17features(n, fs, 0)
 		fk := c17featKey(fs)
 		m, err, pv := call(text)
+		if heldM != nil {
+			same := len(heldM) == len(heldRef)
+			for k, v := range heldRef {
+				if same && heldM[k] != v {
+					same = false
+				}
+			}
+			if !same {
+				w.Violate("C17:map-mismatch:held-result-changed", fmt.Sprintf("the map returned for %q was correct when Parse returned; after a later Parse call (of %q) the caller's map reads %v, expected %v", trunc(heldText, 200), trunc(text, 200), heldM, heldRef),
+					map[string]any{"b64": base64.StdEncoding.EncodeToString([]byte(heldText)), "mode": "wellformed", "then_b64": base64.StdEncoding.EncodeToString([]byte(trunc(text, 4000)))})
+			} else {
+				w.Count("held_results_rechecked_after_a_later_parse", 1)
+			}
+			heldM = nil
+		}
+		edited := false
 		cs := map[string]any{"b64": base64.StdEncoding.EncodeToString([]byte(text)), "mode": "wellformed"}
 		// smallest distinguishing feature for the key: prefer the rare ones
 		cls := "other"
@@ -506,6 +525,7 @@ func c17Worker(w *W) {
 		if len(text) < 2000 && (len(m)+len(text))%5 == 0 {
 			// the returned map belongs to the caller: an application that edits it (takes 'type' out, adds defaults) must not
 			// change what a later Parse of the same text returns
+			edited = true
 			delete(m, "type")
 			m["added.by.caller"] = "x"
 			for k := range m {
@@ -524,6 +544,9 @@ func c17Worker(w *W) {
 				return
 			}
 			w.Count("reparsed_after_the_caller_edited_the_first_result", 1)
+		}
+		if !edited && heldM == nil && len(text) < 4000 {
+			heldM, heldRef, heldText = m, ref, text
 		}
 		w.Distinct("wf:" + fk)
 	}
